@@ -9,6 +9,7 @@ package main
 import (
 	"fmt"
 	"strings"
+	"time"
 
 	yae "github.com/goghcrow/yae"
 	"github.com/goghcrow/yae/fun"
@@ -135,6 +136,85 @@ func runC16(r *Run) {
 			r.Nontrivial("host:" + src)
 			if cls == "panic" || (cls == "error" && (strings.Contains(msg, "nil") || strings.Contains(msg, "invalid memory"))) {
 				r.Violate("absence-causes-failure", fmt.Sprintf("%q over host data with nil parts", src), cls+": "+firstLine(msg))
+			}
+		}
+	}
+	// optional host fields of every nil-able kind, absent and present: get(field, default) is the way to consume them, it
+	// works for both, and an expression compiled against one instance runs on every other instance of the same Go type
+	type item struct {
+		Name  string `yae:"name"`
+		Score *int   `yae:"score"`
+	}
+	type host2 struct {
+		Dl    *time.Time     `yae:"dl,maybe"`
+		Tm    time.Time      `yae:"tm"`
+		Pf    *float64       `yae:"pf,maybe"`
+		Ps    *string        `yae:"ps,maybe"`
+		Pp    **float64      `yae:"pp,maybe"`
+		Ts    []*time.Time   `yae:"ts"`
+		Retry int            `yae:"retry"`
+		Any   map[string]int `yae:"any,maybe"`
+	}
+	tm := time.Unix(1577934245, 0).UTC()
+	f1, s1 := 2.5, "s"
+	pf1 := &f1
+	full := host2{Dl: &tm, Tm: tm, Pf: &f1, Ps: &s1, Pp: &pf1, Ts: []*time.Time{&tm}, Retry: 3, Any: map[string]int{"a": 1}}
+	empty := host2{Tm: tm, Ts: []*time.Time{}, Retry: 4}
+	for _, c := range []struct{ src, onFull, onEmpty string }{
+		{`get(dl, tm) == tm`, "true", "true"}, {`get(pf, 7)`, "2.5", "7"}, {`get(ps, "d")`, `"s"`, `"d"`}, {`get(pp, 1) + retry`, "5.5", "5"}, {`get(get(any, ["z": 9]), "a", 0)`, "1", "0"},
+		{`len(ts) + retry`, "4", "4"}, {`get(pf, 0) + get(pf, 0)`, "5", "0"}, {`retry`, "3", "4"}, {`string(get(dl, tm)) == string(tm)`, "true", "true"},
+	} {
+		for _, comp := range []host2{full, empty} {
+			for _, run := range []host2{full, empty} {
+				want := c.onFull
+				if run.Dl == nil {
+					want = c.onEmpty
+				}
+				var got string
+				pan, pmsg := protect(func() {
+					cl, err := yae.NewExpr().Compile(c.src, comp)
+					if err != nil {
+						got = "compile-error: " + firstLine(err.Error())
+						return
+					}
+					v, err := cl(run)
+					if err != nil {
+						got = "error: " + firstLine(err.Error())
+						return
+					}
+					got = v.String()
+				})
+				if pan {
+					got = "panic: " + firstLine(pmsg)
+				}
+				r.Count("host-optional programs")
+				r.Nontrivial("host2:" + c.src)
+				if got != want {
+					r.Violate("optional-host-field-not-consumable", fmt.Sprintf("%q compiled against the %s instance, run on the %s instance", c.src, map[bool]string{true: "empty", false: "full"}[comp.Dl == nil], map[bool]string{true: "empty", false: "full"}[run.Dl == nil]),
+						fmt.Sprintf("got %s, expected %s", got, want))
+				}
+			}
+		}
+	}
+	// a list whose elements disagree about an UNTAGGED nil-able field: the data is inconsistent (C15 says it must be
+	// refused); whatever conversion does, an absent score must never be consumed by arithmetic without get
+	sc := func(i int) *int { return &i }
+	for _, items := range [][]item{{{"a", sc(90)}, {"b", nil}, {"c", sc(70)}}, {{"a", nil}, {"b", sc(1)}}, {{"a", sc(1)}, {"b", sc(2)}}} {
+		hv := map[string]interface{}{"items": items}
+		for idx := range items {
+			src := fmt.Sprintf("items[%d].score + 1", idx)
+			var got string
+			protect(func() {
+				v, err := yae.Eval(src, hv)
+				if err != nil {
+					got = "error"
+				} else {
+					got = "value " + v.String()
+				}
+			})
+			r.Count("host-mixed-nil programs")
+			if items[idx].Score == nil && strings.HasPrefix(got, "value") {
+				r.Violate("absent-optional-consumed-without-get", fmt.Sprintf("%q over items=%v", src, len(items)), "an absent score took part in arithmetic: "+got)
 			}
 		}
 	}
